@@ -1,0 +1,71 @@
+//! Verification event sink, compiled only under `--cfg jrsonnet_verif`.
+//!
+//! Off unless a test harness calls [`install`]; events are appended to a thread-local
+//! vector at the memoisation linearisation points and never influence evaluation.
+
+use std::cell::RefCell;
+
+#[derive(Debug, Clone)]
+pub struct Event {
+	/// Site of the event: `thunk`, `earr`, `marr`, `obj`, `imp`
+	pub site: &'static str,
+	/// What happened: `hit`, `hit_err`, `reenter`, `start`, `finish`, `fail`, `drop`, ...
+	pub what: &'static str,
+	/// Identity of the cell (address while alive)
+	pub id: usize,
+	/// Sub-index (array index, core index)
+	pub idx: usize,
+	/// Optional key (field name, path)
+	pub key: Option<String>,
+}
+
+thread_local! {
+	static SINK: RefCell<Option<Vec<Event>>> = const { RefCell::new(None) };
+}
+
+/// Start recording on this thread
+pub fn install() {
+	SINK.with_borrow_mut(|s| *s = Some(Vec::new()));
+}
+/// Stop recording, return what was recorded
+pub fn take() -> Vec<Event> {
+	SINK.with_borrow_mut(|s| s.take().unwrap_or_default())
+}
+pub fn enabled() -> bool {
+	SINK.with_borrow(Option::is_some)
+}
+pub fn emit(site: &'static str, what: &'static str, id: usize, idx: usize) {
+	SINK.with_borrow_mut(|s| {
+		if let Some(s) = s {
+			s.push(Event {
+				site,
+				what,
+				id,
+				idx,
+				key: None,
+			});
+		}
+	});
+}
+pub fn emit_key(site: &'static str, what: &'static str, id: usize, idx: usize, key: &dyn ToString) {
+	SINK.with_borrow_mut(|s| {
+		if let Some(s) = s {
+			s.push(Event {
+				site,
+				what,
+				id,
+				idx,
+				key: Some(key.to_string()),
+			});
+		}
+	});
+}
+
+/// Is an evaluation state entered on this thread
+pub fn state_entered() -> bool {
+	crate::STATE.with_borrow(Option::is_some)
+}
+/// Number of objects whose assertions are currently marked as running
+pub fn asserting_len() -> usize {
+	crate::obj::verif_asserting_len()
+}
